@@ -354,6 +354,26 @@ def gen_decks(outdir: str) -> list[str]:
         for k, v in attrs.items():
             el.set(k, v)
     s.notes_slide.notes_text_frame.text = "note"
+    # content the library has no class for, as PowerPoint writes it: a shape wrapped in mc:AlternateContent (an equation / 3D model / zoom
+    # with its fallback picture-like shape), on the slide and inside a group; a shape whose p:nvPr carries an extension list
+    s2 = prs.slides.add_slide(prs.slide_layouts[5])
+    s2.shapes.title.text = "foreign content"
+    g3 = s2.shapes.add_group_shape()
+    g3.shapes.add_shape(MSO_SHAPE.RECTANGLE, Emu(100), Emu(200), Emu(3000), Emu(2000))
+    A = "http://schemas.openxmlformats.org/drawingml/2006/main"
+    alt = ('<mc:AlternateContent xmlns:mc="http://schemas.openxmlformats.org/markup-compatibility/2006" xmlns:p="%s" xmlns:a="%s" '
+           'xmlns:a14="http://schemas.microsoft.com/office/drawing/2010/main"><mc:Choice Requires="a14"><p:sp><p:nvSpPr><p:cNvPr id="%%d" '
+           'name="Equation %%d"/><p:cNvSpPr txBox="1"/><p:nvPr/></p:nvSpPr><p:spPr><a:xfrm><a:off x="10" y="20"/><a:ext cx="300" cy="200"/>'
+           '</a:xfrm><a:prstGeom prst="rect"><a:avLst/></a:prstGeom></p:spPr><p:txBody><a:bodyPr/><a:p><a:r><a:t>choice</a:t></a:r></a:p>'
+           '</p:txBody></p:sp></mc:Choice><mc:Fallback><p:sp><p:nvSpPr><p:cNvPr id="%%d" name="Equation %%d"/><p:cNvSpPr txBox="1"/><p:nvPr/>'
+           '</p:nvSpPr><p:spPr><a:xfrm><a:off x="10" y="20"/><a:ext cx="300" cy="200"/></a:xfrm><a:prstGeom prst="rect"><a:avLst/>'
+           '</a:prstGeom></p:spPr><p:txBody><a:bodyPr/><a:p><a:r><a:t>fallback</a:t></a:r></a:p></p:txBody></p:sp></mc:Fallback>'
+           '</mc:AlternateContent>' % (F.NS_P, A))
+    s2.shapes._spTree.append(etree.fromstring(alt % (40, 40, 40, 40)))
+    g3._element.append(etree.fromstring(alt % (41, 41, 41, 41)))
+    nv = s2.shapes.title._element.find("{%s}nvSpPr/{%s}nvPr" % (F.NS_P, F.NS_P))
+    nv.append(etree.fromstring('<p:extLst xmlns:p="%s"><p:ext uri="{D42A27DB-BD31-4B8C-83A1-F6EECF244321}"><p14:modId '
+                               'xmlns:p14="http://schemas.microsoft.com/office/powerpoint/2010/main" val="1234567"/></p:ext></p:extLst>' % F.NS_P))
     p = os.path.join(outdir, "gen-shapes.pptx")
     prs.save(p)
     out.append(p)
